@@ -27,6 +27,7 @@ class Infra(Exception):
 
 
 def lake_build(targets=("SPModel", "spdrv")):
+    targets = list(dict.fromkeys(targets))
     """Build the Lean library and driver (no-op when up to date).  Serialised
     with a lock file so that checks running in parallel do not race."""
     os.makedirs(os.path.join(LEAN, ".lake"), exist_ok=True)
@@ -127,35 +128,47 @@ def property_index():
         return json.load(f)
 
 
-def grep_forbidden():
-    hits = []
-    for root, _, files in os.walk(LEAN):
-        if ".lake" in root:
+def module_closure(mods):
+    """Source files of `mods` and of everything they import inside this project."""
+    seen, todo = {}, list(mods)
+    while todo:
+        m = todo.pop()
+        if m in seen:
             continue
-        for fn in files:
-            if not fn.endswith(".lean"):
-                continue
-            path = os.path.join(root, fn)
-            in_block = 0
-            for i, line in enumerate(open(path, encoding="utf-8"), 1):
-                code = line
-                # strip comments (block comments tracked roughly, line comments exactly)
-                if in_block:
-                    if "-/" in code:
-                        code = code.split("-/", 1)[1]
-                        in_block = 0
-                    else:
-                        continue
-                if "/-" in code:
-                    pre, post = code.split("/-", 1)
-                    if "-/" in post:
-                        code = pre + post.split("-/", 1)[1]
-                    else:
-                        code = pre
-                        in_block = 1
-                code = code.split("--", 1)[0]
-                if FORBIDDEN.search(code):
-                    hits.append("%s:%d: %s" % (os.path.relpath(path, VERIF), i, line.strip()))
+        path = os.path.join(LEAN, *m.split(".")) + ".lean"
+        if not os.path.exists(path):
+            continue
+        seen[m] = path
+        for line in open(path, encoding="utf-8"):
+            mm = re.match(r"\s*import\s+((?:SPModel|SPProofs)[\w.]*)", line)
+            if mm:
+                todo.append(mm.group(1))
+    return seen
+
+
+def grep_forbidden(mods):
+    hits = []
+    for m, path in sorted(module_closure(mods).items()):
+        in_block = 0
+        for i, line in enumerate(open(path, encoding="utf-8"), 1):
+            code = line
+            # strip comments (block comments tracked roughly, line comments exactly)
+            if in_block:
+                if "-/" in code:
+                    code = code.split("-/", 1)[1]
+                    in_block = 0
+                else:
+                    continue
+            if "/-" in code:
+                pre, post = code.split("/-", 1)
+                if "-/" in post:
+                    code = pre + post.split("-/", 1)[1]
+                else:
+                    code = pre
+                    in_block = 1
+            code = code.split("--", 1)[0]
+            if FORBIDDEN.search(code):
+                hits.append("%s:%d: %s" % (os.path.relpath(path, VERIF), i, line.strip()))
     return hits
 
 
@@ -166,12 +179,12 @@ def audit(prop):
     thms = idx.get("theorems", [])
     res = {"obligations": len(thms), "discharged": 0, "theorems": [], "problems": [],
            "checker_cmd": "cd lean && lake build SPModel SPProofs spdrv && lake env lean <audit file with `#print axioms` per theorem>"}
-    hits = grep_forbidden()
+    mods = idx.get("modules", [])
+    hits = grep_forbidden(mods)
     if hits:
         res["problems"].append({"forbidden_tokens": hits[:10]})
     if not thms:
         return res
-    mods = idx.get("modules", [])
     src = "".join("import %s\n" % m for m in mods)
     for t in thms:
         src += "#print axioms %s\n" % t["name"]
